@@ -40,7 +40,13 @@ pub fn read_varint<R: BufRead>(mut src: R) -> Result<u64, VarintError> {
     'outer: loop {
         let buf = src.fill_buf()?;
         if buf.is_empty() {
-            return Err(VarintError::Eof);
+            // This is only a clean end of stream if no bytes of the varint
+            // have been read yet.
+            return Err(if index == 0 {
+                VarintError::Eof
+            } else {
+                VarintError::InvalidVarint
+            });
         }
 
         let buf_len = buf.len().min(MAX_VARINT_LEN - index);
@@ -61,7 +67,8 @@ pub fn read_varint<R: BufRead>(mut src: R) -> Result<u64, VarintError> {
         }
 
         src.consume(buf_len);
-        if index > MAX_VARINT_LEN {
+        if index >= MAX_VARINT_LEN {
+            // All ten bytes had the continuation bit set.
             break;
         }
     }
@@ -180,6 +187,28 @@ mod tests {
         let mut cur = OneByteCursor::new(&buf);
         let decoded = read_varint(&mut cur).unwrap();
         assert_eq!(decoded, val);
+    }
+
+    // A varint with more than ten bytes must be rejected rather than waiting
+    // for more input forever.
+    #[test]
+    fn test_overlong_varint() {
+        for len in [11, 12, 32] {
+            let buf = vec![0xffu8; len];
+            let decoded = read_varint(&mut Cursor::new(&buf));
+            assert!(matches!(decoded, Err(VarintError::InvalidVarint)));
+
+            let decoded = read_varint(&mut OneByteCursor::new(&buf));
+            assert!(matches!(decoded, Err(VarintError::InvalidVarint)));
+        }
+    }
+
+    // A varint which is cut off by the end of the stream is invalid, not a
+    // clean EOF.
+    #[test]
+    fn test_truncated_varint() {
+        let decoded = read_varint(&mut Cursor::new([0x80u8, 0x80]));
+        assert!(matches!(decoded, Err(VarintError::InvalidVarint)));
     }
 
     #[test]
